@@ -389,6 +389,9 @@ def run(ctx) -> dict:
         'not_decided':
             'The round-trip equalities (parse-json∘serialize, xml-to-json∘json-to-xml, '
             'parse-xml∘serialize) relate independent implementations through the values they '
-            'produce and are not decided; nor are the duplicates/escape/fallback options.',
+            'produce and are not decided; nor are the duplicates/escape/fallback options. Decided '
+            'necessary conditions: no rounding and no text surgery (character-set strip, separator '
+            'joins) in the serializer, escape tables, exponent-safe zero stripping, purity of the '
+            'JSON functions.',
         'assumptions': ['RFC 8259 §7 short escapes and mandatory escapes (table in the rule module)'],
     }
